@@ -257,6 +257,62 @@ vector<double> genStart(vrt::Rng& rng, const Problem& pb)
 }
 
 // ------------------------------------------------------------------------------------------------
+// Variants of (objective, start), all inside the stated quantifier ("random positive-definite quadratics", "smooth non-quadratic
+// convex functions", "random starts" - neither the level nor the scale of the objective nor the distance of the start is restricted):
+//  * level: the minimum value c is lowered to [1e-3,1) - objective values below 1 (the meta-optimiser derives its precision schedule
+//    from log10 of the starting value; relative stop rules depend on |f|);
+//  * scale: the whole objective is multiplied by a factor in [1e-3,1) (values, gradients and curvatures all small);
+//  * flat/far (non-quadratic only): the ridge mu is reduced by a factor 1e-7..1e-1 and the start is moved away from the minimiser
+//    by a factor 1..30: log cosh / sqrt(1+t^2)-1 are then nearly linear around the start (curvature ~ 0), a raw Newton step overshoots by
+//    orders of magnitude and one-dimensional searches give up / fail - "the optimiser stays where it was" must still hold.
+// The variant is drawn from a side stream derived from (VERIF_SEED, group, case index): deterministic, and the draws of the main
+// stream (hence all cases without a variant) are exactly as before.
+// ------------------------------------------------------------------------------------------------
+struct Variant
+{
+  double level, scale, flat, far;
+  Variant() : level(1), scale(1), flat(1), far(1) {}
+  bool any() const { return level != 1 || scale != 1 || flat != 1 || far != 1; }
+  string cls() const { return string(level != 1 ? ":level<1" : "") + (scale != 1 ? ":scaled-down" : "") + (flat != 1 || far != 1 ? ":flat-far" : ""); }
+  string text() const
+  {
+    if (!any()) return "";
+    return " variant{" + string(level != 1 ? " fmin*" + str(level) : "") + (scale != 1 ? " objective*" + str(scale) : "") + (flat != 1 ? " ridge*" + str(flat) : "") + (far != 1 ? " (start-m)*" + str(far) : "") + " }";
+  }
+};
+
+// pLevel / pScale: percentages of the level and of the scale variant (exclusive; independent of each other when `both`), lo: smallest factor
+Variant pickVariant(const vrt::Case& cs, const Problem& pb, size_t pLevel = 25, size_t pScale = 15, double lo = 1e-3, bool both = false)
+{
+  vrt::Rng side(vrt::mix(vrt::mix(cs.seed, vrt::hashStr("C10/variant/" + cs.group)), cs.index));
+  Variant v;
+  size_t r = side.below(100), r2 = side.below(100);
+  double f = side.logReal(lo, 1), f2 = side.logReal(lo, 1);
+  if (r < pLevel) v.level = f;
+  if (both ? r2 < pScale : (r >= pLevel && r < pLevel + pScale)) v.scale = f2;
+  bool ff = side.chance(0.35);
+  double flat = side.logReal(1e-7, 1e-1), far = side.logReal(1, 30);
+  if (ff && !pb.quad) { v.flat = flat; v.far = far; }
+  return v;
+}
+
+void applyVariant(const Variant& v, Problem& pb, vector<double>& start)
+{
+  pb.c *= v.level;
+  if (v.scale != 1)
+  {
+    pb.c *= v.scale;
+    for (size_t i = 0; i < pb.Q.size(); ++i) pb.Q[i] *= v.scale;
+    for (size_t i = 0; i < pb.a.size(); ++i) pb.a[i] *= v.scale;
+    pb.mu *= v.scale;
+    if (pb.quad) { pb.lmin *= v.scale; pb.lmax *= v.scale; }
+  }
+  pb.mu *= v.flat;
+  if (v.far != 1)
+    for (size_t i = 0; i < pb.n; ++i) start[i] = pb.m[i] + v.far * (start[i] - pb.m[i]);
+}
+
+// ------------------------------------------------------------------------------------------------
 // Interval constraints containing start and minimiser
 // ------------------------------------------------------------------------------------------------
 struct Box
@@ -513,6 +569,7 @@ struct Ctx
   vector<double> qStart, qTarget, qWeight; // the other group (modes 1, 2): start, minimiser, curvature per parameter
   Box qBox;                                 // its constraints
   Box warmBox;                              // mode 3: the constraints of the warm-up run
+  Variant variant;                          // level / scale / flat-far variant of (objective, start)
   Ctx() : kind(BFGS), tol(0), generous(true), cap(0), clone(false), reuse(false), reuseMode(0), coord(0), xinf(0), xsup(0), smin(0), q(0), metaN(1) {}
   // 1-D
   size_t coord;
@@ -578,8 +635,8 @@ struct Ctx
   }
   string text() const
   {
-    string s = optName() + " policy=" + policy + " " + pb.family() + " n=" + str(pb.n) + " kappa=" + str(pb.kappa) + " lmin=" + str(pb.lmin) + " fmin=" + str(pb.c) +
-        " tol=" + str(tol) + " maxEval=" + str(cap) + (clone ? " (cloned optimiser)" : "") + reuseText() + " m=" + vrt::vecStr(pb.m) + " start=" + vrt::vecStr(start) + " f(start)=" + str(pb.eval(start)) +
+    string s = optName() + " policy=" + policy + " " + pb.family() + " n=" + str(pb.n) + " kappa=" + str(pb.kappa) + " lmin=" + str(pb.lmin) + " fmin=" + str(pb.c) + (pb.quad ? string() : " ridge=" + str(pb.mu)) +
+        " tol=" + str(tol) + " maxEval=" + str(cap) + (clone ? " (cloned optimiser)" : "") + reuseText() + variant.text() + " m=" + vrt::vecStr(pb.m) + " start=" + vrt::vecStr(start) + " f(start)=" + str(pb.eval(start)) +
         " constraints={" + box.text() + "}";
     if (isOneD(kind)) s += " coord=" + str(coord) + " interval=[" + str(xinf) + "," + str(xsup) + "] slice-min=" + str(smin) + " start@" + startPos;
     if (kind == META)
@@ -909,7 +966,7 @@ void judgeRunImpl(const Ctx& c, const vector<size_t>& coords, const RunResult& r
 
   const double fr = c.pb.eval(r.x);
   const string stop = r.tolReached ? "stop=tol" : "stop=cap";
-  vrt::cover(grp + ":" + base + ":" + c.pb.family() + ":" + (c.pb.n == 1 ? "n1" : c.pb.n <= 3 ? "n2-3" : "n4-6") + ":" + c.consClass() + (constrained && r.touched ? "+touched" : "") + ":" + budgetClass(c) + ":" + stop + (c.clone ? ":clone" : "") + c.reuseClass());
+  vrt::cover(grp + ":" + base + ":" + c.pb.family() + ":" + (c.pb.n == 1 ? "n1" : c.pb.n <= 3 ? "n2-3" : "n4-6") + ":" + c.consClass() + (constrained && r.touched ? "+touched" : "") + ":" + budgetClass(c) + ":" + stop + (c.clone ? ":clone" : "") + c.reuseClass() + c.variant.cls() + (f0 < 1 ? ":f(start)<1" : ""));
 
   // (1) descent
   vrt::expect(fr <= f0 + F_SLACK * (1 + fabs(f0)), "descent", base + ":" + stop, [&] {
@@ -1006,7 +1063,7 @@ void judgeRunImpl(const Ctx& c, const vector<size_t>& coords, const RunResult& r
         fmin = c.pb.eval(y);
         bound = KCONV * c.tol * (1 + fabs(fmin)) + KCONV * floorF(c.pb);
       }
-      margin("converge:" + on, fr - fmin, bound);
+      margin("converge:" + (grp == "metaprec" ? c.optName() + ":steps=" + str(c.metaN) + (f0 < 1 ? ":f(start)<1" : ":f(start)>=1") : on), fr - fmin, bound);
       // a downhill simplex over one or two parameters is the class of known finding C10-downhill-stop-rule
       const string ccls = base + ((c.kind == DOWNHILL || (c.kind == META && c.hasDownhillFull())) ? (c.simplexLowDim() ? ":dim<=2" : ":dim>=3") : "");
       vrt::expect(fr - fmin <= bound, "converge.quadratic", ccls, [&] {
@@ -1079,6 +1136,8 @@ void caseMulti(vrt::Case& cs)
   bool quad = rng.chance(0.6);
   c.pb = genProblem(rng, n, quad, rng.chance(0.5));
   c.start = genStart(rng, c.pb);
+  c.variant = pickVariant(cs, c.pb);
+  applyVariant(c.variant, c.pb, c.start);
   c.box = genBox(rng, c.start, c.pb.m, rng.chance(0.35));
   c.policy = policyOf(rng.below(3));
   c.tol = pickTol(rng);
@@ -1109,6 +1168,8 @@ void caseOneD(vrt::Case& cs)
   bool quad = rng.chance(0.6);
   c.pb = genProblem(rng, n, quad, rng.chance(0.5));
   c.start = genStart(rng, c.pb);
+  c.variant = pickVariant(cs, c.pb);
+  applyVariant(c.variant, c.pb, c.start);
   c.coord = rng.below(n);
   c.smin = c.pb.sliceMin(c.start, c.coord);
   c.q = c.pb.d2(c.start, c.coord, c.coord);
@@ -1196,6 +1257,8 @@ void caseMeta(vrt::Case& cs)
   bool quad = rng.chance(0.6);
   c.pb = genProblem(rng, n, quad, rng.chance(0.5));
   c.start = genStart(rng, c.pb);
+  c.variant = pickVariant(cs, c.pb);
+  applyVariant(c.variant, c.pb, c.start);
   c.box = genBox(rng, c.start, c.pb.m, rng.chance(0.35));
   c.policy = policyOf(rng.below(3));
   c.tol = pickTol(rng);
@@ -1239,6 +1302,56 @@ void caseMeta(vrt::Case& cs)
   shared_ptr<Objective> obj;
   RunResult r = runOptimizer(c, coords, mon, obj);
   judgeRun(c, coords, r, "meta");
+}
+
+// ------------------------------------------------------------------------------------------------
+// group "metaprec": the progressive-precision schedule of the MetaOptimizer.  Documented: with n precision steps the sub-optimisers
+// run at increasing precisions "until precision eps at step n and later" (eps = the requested tolerance); the schedule is computed by
+// init() from the tolerance, n and the value of the objective at the start.  Whatever n and whatever the magnitude of the starting
+// value, a run that reports its tolerance as reached has therefore been finished at the requested tolerance, and the convergence
+// clause applies with that tolerance.  One sub-optimiser over all parameters (every kind; mostly iteration type 'full', where the
+// meta-optimiser itself declares convergence after the n-th precision), n = 2..4 (index driven; more steps are not generated: with 8
+// steps the unchanged library was seen to end runs through the function-difference rule of the meta-optimiser while the sub-optimiser
+// still worked at a coarse precision and made no move - notes/C10.md), objectives whose starting value spans about 1e-9 .. 1e5 (minimum
+// value lowered and / or whole objective scaled down, independently, or unchanged), fresh, cloned and re-initialised optimiser objects.
+// No new clause: the runs are judged by judgeRun() like every other run.
+// ------------------------------------------------------------------------------------------------
+void caseMetaPrecision(vrt::Case& cs)
+{
+  vrt::Rng& rng = cs.rng;
+  Ctx c;
+  c.kind = META;
+  static const Kind inner[7] = { BFGS, CG, POWELL, DOWNHILL, SIMPLE, SIMPLENEWTON, NEWTON1D };
+  Kind ik = inner[cs.index % 7];
+  c.metaN = 2 + static_cast<unsigned>((cs.index / 7) % 3); // 2..4 (one step = no schedule: group "meta")
+  // Newton 1-D takes one parameter; a simplex over one or two parameters is the class of known finding C10-downhill-stop-rule
+  size_t n = ik == NEWTON1D ? 1 : ik == DOWNHILL ? static_cast<size_t>(rng.range(3, 6)) : static_cast<size_t>(rng.range(1, 6));
+  bool quad = rng.chance(0.85);
+  c.pb = genProblem(rng, n, quad, rng.chance(0.5));
+  c.start = genStart(rng, c.pb);
+  c.variant = pickVariant(cs, c.pb, 60, 60, 1e-6, true);
+  applyVariant(c.variant, c.pb, c.start);
+  c.box = genBox(rng, c.start, c.pb.m, rng.chance(0.6));
+  c.policy = policyOf(rng.below(3));
+  c.tol = pickTol(rng);
+  c.generous = rng.chance(0.85);
+  c.cap = c.generous ? 100000 : static_cast<unsigned>(rng.logReal(3, 400));
+  c.clone = rng.chance(0.1);
+  c.reuse = rng.chance(0.15);
+  c.coord = 0; c.xinf = c.xsup = c.smin = c.q = 0;
+  c.parts.resize(1);
+  c.parts[0].kind = ik;
+  c.parts[0].coords = allCoords(n);
+  // known finding C10-meta-downhill-step: a step-type simplex is run by its own group only
+  c.parts[0].full = ik == DOWNHILL ? true : rng.chance(0.8);
+  vector<size_t> coords = allCoords(n);
+  pickReuse(rng, c, coords);
+  vrt::cover(string("metaprec:inner:") + kindName(ik) + (c.parts[0].full ? "/full" : "/step") + ":steps=" + str(c.metaN) + (c.pb.eval(c.start) < 1 ? ":f(start)<1" : ":f(start)>=1"));
+  vrt::describe(c.sigName() + ":" + c.policy + ":" + c.pb.family(), c.text());
+  Monitor mon;
+  shared_ptr<Objective> obj;
+  RunResult r = runOptimizer(c, coords, mon, obj);
+  judgeRun(c, coords, r, "metaprec");
 }
 
 // ------------------------------------------------------------------------------------------------
@@ -1567,6 +1680,7 @@ int main(int argc, char** argv)
     { "multi", 6000, 180000, caseMulti, 600, false },
     { "oned", 4000, 120000, caseOneD, 600, false },
     { "meta", 2000, 60000, caseMeta, 600, false },
+    { "metaprec", 4200, 63000, caseMetaPrecision, 600, false },
     { "line", 3000, 90000, caseLine, 600, false },
     { "bracket", 3000, 90000, caseBracket, 600, false },
     { "known-meta-downhill-step", 3, 3, caseKnownMetaDownhillStep, 600, false },
@@ -1580,9 +1694,11 @@ int main(int argc, char** argv)
       "parameters q of the block-separable objective f(p)+g(q), same or different number of parameters, own constraints; on the same parameters with other constraints). "
       "multi: BFGS, conjugate gradient, Powell, downhill simplex, SimpleMultiDimensions, SimpleNewtonMultiDimensions x dimension 1..6 (index-driven). oned: Brent with outward / inward bracketing, golden section, Newton 1-D on 1-D "
       "objectives and on 1-D slices of n-D ones; initial interval with the start at an end or inside. meta: MetaOptimizer over 1..3 sub-optimisers (7 kinds, iteration type step/full) on a random partition of the parameters "
-      "(a part may be empty), 1..4 progressive-precision steps. line: NewtonBacktrackOneDimension on a DirectionFunction, lineSearch, lineMinimization along Newton / steepest / random descent directions. "
+      "(a part may be empty), 1..4 progressive-precision steps. metaprec: MetaOptimizer with one sub-optimiser (7 kinds, index-driven; type full 80 %) over all parameters, 2..4 progressive-precision steps (index-driven), "
+      "minimum value and / or whole objective scaled down by factors in [1e-6,1] (60 % each, independently). Variants (side stream derived from seed, group, index): multi / oned / meta: 25 % minimum value lowered by a factor in [1e-3,1), "
+      "15 % whole objective scaled down by such a factor; non-quadratic objectives 35 %: ridge reduced by 1e-7..1e-1 and start moved away from the minimiser by a factor 1..30 (nearly flat far start). line: NewtonBacktrackOneDimension on a DirectionFunction, lineSearch, lineMinimization along Newton / steepest / random descent directions. "
       "bracket: bracketMinimum / inwardBracketMinimum on convex slices. A class key = (group, optimiser, policy, objective family, dimension class, constraint class incl. whether a bound was approached, budget class, "
-      "stop by tolerance or by budget, clone / kind of re-use) resp. (line tool, policy, family, direction kind, constraint class, accepted abscissa class) resp. (bracketing routine, family, position of the minimiser); each key is a complete optimisation run.";
+      "stop by tolerance or by budget, clone / kind of re-use, objective variant, starting value below 1) resp. (line tool, policy, family, direction kind, constraint class, accepted abscissa class) resp. (bracketing routine, family, position of the minimiser); each key is a complete optimisation run.";
   meta.assumptions = {
     "descent: f(reported) <= f(start) + 1e-10 (1+|f(start)|), both computed by the pure objective; the start of Brent / golden section is the initial value of the parameter, placed at an end of the initial interval (Brent also inside)",
     "consistency: optimize() and getFunctionValue() equal the objective at getParameters() within 1e-12 relative",
@@ -1598,6 +1714,8 @@ int main(int argc, char** argv)
     "re-used optimiser object: the warm-up run is never judged; when it works on another parameter group q of the objective f(p)+g(q), the judged run over p is judged against f(p)+g(q) with q as the warm-up left it "
     "(a constant: the parameters not handed to init() are parameters of the function that are not optimised), i.e. start value, value at the reported point and minimum all include that constant; "
     "warm-up constraints are absent under the keep policy (a raising warm-up is not wanted), arbitrary intervals containing warm-up start and minimiser otherwise",
+    "objective variants stay inside the quantifier (any level / scale of the objective, any convex non-quadratic function, any start): the objective is only ever scaled DOWN (every convergence bound is either scale-free or "
+    "contains the absolute term tol (1+|fmin|) and explicit curvatures, so it only gets more generous); a lowered ridge / far start is judged for descent, consistency, budget and feasibility only (non-quadratic)",
     "the objective's own parameters carry no constraint (it records, it does not police); AutoParameter / IntervalConstraint themselves are trusted here (property C01)",
   };
   meta.requiredClauses = { "run.returns", "descent", "consistent.returned", "consistent.getFunctionValue", "budget.counter", "budget.evaluations", "budget.counter-honest", "feasible.evaluations", "feasible.reported",
